@@ -161,6 +161,24 @@ struct Engine : MemView {
         void run_threads();
         void join_others();
         bytes iso_ev, iso_cmd;
+        // halves beyond 4 KiB (giant worlds): the first and the last 2 KiB stand for the half
+        static void iso_snap(bytes &dst, const void *buf, size_t cap)
+        {
+                const char *b = (const char *)buf;
+                if (cap <= 4096)
+                        dst.assign(b, cap);
+                else {
+                        dst.assign(b, 2048);
+                        dst.append(b + cap - 2048, 2048);
+                }
+        }
+        static bool iso_differs(const bytes &snap, const void *buf, size_t cap)
+        {
+                const char *b = (const char *)buf;
+                if (cap <= 4096)
+                        return memcmp(snap.data(), b, cap) != 0;
+                return memcmp(snap.data(), b, 2048) != 0 || memcmp(snap.data() + 2048, b + cap - 2048, 2048) != 0;
+        }
         bool other_on = false; // second parser instance (plan.other)
         bool on_valgrind = false; // harness-side peeks at library memory are switched off
         void other_step_hook();
@@ -1391,9 +1409,9 @@ int Engine::service_once()
                 acc0 = mon.st.events_accepted;
                 rx0 = es.rx_bytes;
                 if (ev_idle0)
-                        iso_ev.assign((const char *)evbuf, evcap);
+                        iso_snap(iso_ev, evbuf, evcap);
                 if (cmd_idle0 || held0)
-                        iso_cmd.assign((const char *)cmdbuf, cmdcap);
+                        iso_snap(iso_cmd, cmdbuf, cmdcap);
         }
         if (!plan.mutex)
                 mon.on_service_begin();
@@ -1408,11 +1426,11 @@ int Engine::service_once()
                 other_step_hook();
         check_ro();
         if (iso && !mon.viol.set() && mon.model_ok()) {
-                if (ev_idle0 && mon.st.events_accepted == acc0 && memcmp(iso_ev.data(), evbuf, evcap) != 0)
+                if (ev_idle0 && mon.st.events_accepted == acc0 && iso_differs(iso_ev, evbuf, evcap))
                         mon.fail("C03", "event-half-of-shared-buffer-touched", "the unsolicited half of the shared working buffer changed during a service call although no event was pending");
-                else if (held0 && mon.held_unreleased() && memcmp(iso_cmd.data(), cmdbuf, cmdcap) != 0)
+                else if (held0 && mon.held_unreleased() && iso_differs(iso_cmd, cmdbuf, cmdcap))
                         mon.fail("C03", "command-half-of-shared-buffer-touched", "the command half of the shared working buffer changed while the command was suspended (hold)");
-                else if (cmd_idle0 && es.rx_bytes == rx0 && memcmp(iso_cmd.data(), cmdbuf, cmdcap) != 0)
+                else if (cmd_idle0 && es.rx_bytes == rx0 && iso_differs(iso_cmd, cmdbuf, cmdcap))
                         mon.fail("C03", "command-half-of-shared-buffer-touched", "the command half of the shared working buffer changed although no command line was in progress and no byte was read");
                 else
                         es.iso_checks++;
@@ -1423,7 +1441,8 @@ int Engine::service_once()
         }
         // exact livelock detection: a BUSY call that made no callback and left object and
         // buffers unchanged can never make progress (outside a hold)
-        if (st == CAT_STATUS_BUSY && callbacks == cb0 && mon.model_ok() && !mon.held() && !mon.dead() && !on_valgrind) {
+        // (not in giant worlds: hashing 100 KiB per call would cost more than the run)
+        if (st == CAT_STATUS_BUSY && callbacks == cb0 && mon.model_ok() && !mon.held() && !mon.dead() && !on_valgrind && bufblk.size <= 16384) {
                 uint64_t h = mem_hash();
                 if (last_state_valid && h == last_state_hash)
                         mon.fail("C15", "livelock", "cat_service returned BUSY twice in a row without invoking any callback and without changing the parser object or buffers");
